@@ -95,8 +95,11 @@ Qed.
 Theorem C10_tables :
   Tables.change_info = [((-1)%Z, (s2l "-", Some (s2l "Deleted"))); (0%Z, ([9900], None)); (1%Z, (s2l "+", Some (s2l "Added")));
                         (100%Z, ([177], Some (s2l "Changed")))] /\
-  template_clean Tables.links_css_template = true.
-Proof. split; vm_compute; reflexivity. Qed.
+  template_clean Tables.links_css_template = true /\
+  Tables.row_class = s2l "links-list--item".
+Proof. split; [vm_compute; reflexivity|]. split; [vm_compute; reflexivity|reflexivity]. Qed.
+(* the styling flags of a row (Tables.row_flags, translated from the source) are deliberately not
+   pinned: they are not part of the property; the theorems hold for whatever flags the code defines *)
 
 (* non-vacuity: a hostile entry *)
 Example C10_example :
